@@ -13,7 +13,12 @@ RULE = ("random reduced-form indexed grammars (2-5 non-terminals, 1-2 indices, a
         "independently by an explicit derivation found by bounded search; remove_useless_rules() must keep the verdict "
         "and is compared with the model; the intersection with a regular language must be non-empty when a derivable "
         "word found by bounded enumeration is accepted. Non-trivial: >=4 rules of >=3 kinds.")
-THEOREMS = []
+LEVEL = "proof"
+THEOREMS = ["Pfl.IG.derivable_sound",
+            "Pfl.IG.marks_sound",
+            "Pfl.IG.marks_complete",
+            "Pfl.IG.isEmpty_iff",
+            "Pfl.IG.removeUseless_nonEmpty"]
 NTS = ["S", "A", "B", "C", "D"]
 IDX = ["f", "g"]
 
